@@ -851,11 +851,14 @@ class ReadParquetPyarrowFS(ReadParquet):
     def _get_lengths(self):
         # TODO: Filters that only filter partition_expr can be used as well
         if not self.filters:
-            return tuple(
-                stats["num_rows"]
-                for i, stats in enumerate(self.aggregated_statistics)
-                if not self._filtered or i in self._partitions
-            )
+            # by position: a selection may repeat or reorder partitions
+            lengths = [stats["num_rows"] for stats in self.aggregated_statistics]
+            # the statistics follow the file listing, the partitions follow
+            # the divisions
+            order = self._fragment_sort_index()
+            if order is not None:
+                lengths = [lengths[i] for i in order]
+            return tuple(lengths[i] for i in self._partitions)
 
     @cached_property
     def _dataset_info(self):
@@ -1325,11 +1328,9 @@ class ReadParquetFSSpec(ReadParquet):
         """Return known partition lengths using parquet statistics"""
         if not self.filters:
             self._update_length_statistics()
-            return tuple(
-                length
-                for i, length in enumerate(self._pq_length_stats)
-                if not self._filtered or i in self._partitions
-            )
+            # keyed by partition number (a selection may repeat or reorder
+            # partitions)
+            return tuple(self._pq_length_stats[i] for i in self._partitions)
         return None
 
     def _update_length_statistics(self):
@@ -1338,16 +1339,18 @@ class ReadParquetFSSpec(ReadParquet):
         if not self._pq_length_stats:
             if self._plan["statistics"]:
                 # Already have statistics from original API call
-                self._pq_length_stats = tuple(
-                    stat["num-rows"]
+                self._pq_length_stats = {
+                    i: stat["num-rows"]
                     for i, stat in enumerate(self._plan["statistics"])
-                    if not self._filtered or i in self._partitions
-                )
+                }
             else:
-                # Need to go back and collect statistics
-                self._pq_length_stats = tuple(
-                    stat["num-rows"] for stat in _collect_pq_statistics(self)
-                )
+                # Need to go back and collect statistics (for all partitions,
+                # so that they can be addressed by partition number)
+                unfiltered = self.substitute_parameters({"_partitions": None})
+                self._pq_length_stats = {
+                    i: stat["num-rows"]
+                    for i, stat in enumerate(_collect_pq_statistics(unfiltered))
+                }
 
 
 #
